@@ -44,7 +44,9 @@ impl OpeningHoursExpression {
             return kind == RuleKind::Closed;
         };
 
-        tail.kind == kind && tail.is_constant()
+        // A fallback rule only applies when no previous rule matched, so it can't be used to
+        // conclude anything.
+        tail.kind == kind && tail.is_constant() && tail.operator != RuleOperator::Fallback
     }
 
     /// Convert the expression into a normalized form. It will not affect the meaning of the
